@@ -174,6 +174,8 @@ pub struct World {
     pub incarnation: Cell<u32>,
     pub starts: Cell<u32>,
     pub heartbeat_interval_micros: Cell<u64>,
+    /// serve the HTTP API too (hook H8)
+    pub http_enabled: Cell<bool>,
 }
 
 pub const ROOT_USER: &str = "iggy";
@@ -189,6 +191,7 @@ impl World {
             incarnation: Cell::new(0),
             starts: Cell::new(0),
             heartbeat_interval_micros: Cell::new(5_000_000),
+            http_enabled: Cell::new(false),
         })
     }
 
@@ -240,6 +243,9 @@ impl World {
                         server::verif::serve_connection(address, stream, system).await;
                     });
                 })));
+                if self.http_enabled.get() {
+                    self.start_http(group).await;
+                }
                 Ok(())
             }
             Some(Err(error)) => {
@@ -253,6 +259,65 @@ impl World {
         }
     }
 
+    /// The HTTP API of this incarnation: the real router (hook H8), called in-process. Every request runs as
+    /// an actor of the server's group.
+    async fn start_http(self: &Rc<Self>, group: u32) {
+        let Some(shared) = self.shared() else { return };
+        let router = self
+            .sim
+            .run_as(group, "http-init", async move {
+                let mut config = server::configs::http::HttpConfig::default();
+                // `jsonwebtoken` validates `exp` against the real clock; the simulated epoch lies before it
+                config.jwt.access_token_expiry = iggy::utils::expiry::IggyExpiry::NeverExpire;
+                config.metrics.enabled = false;
+                config.cors.enabled = false;
+                server::http::http_server::verif_router(config, shared).await
+            })
+            .await;
+        let Some(router) = router else { return };
+        let sim = self.sim.clone();
+        self.sim.set_http_handler(Some(Rc::new(move |request: reqwest::Request| {
+            let router = router.clone();
+            let sim = sim.clone();
+            Box::pin(async move {
+                let mut target = request.url().path().to_string();
+                if let Some(query) = request.url().query() {
+                    target.push('?');
+                    target.push_str(query);
+                }
+                let mut builder = http::Request::builder().method(request.method().clone()).uri(target);
+                for (name, value) in request.headers() {
+                    builder = builder.header(name, value);
+                }
+                let body = request.body().and_then(|b| b.as_bytes()).map(|b| b.to_vec()).unwrap_or_default();
+                let mut req = builder.body(axum::body::Body::from(body)).map_err(|e| e.to_string())?;
+                req.extensions_mut().insert(axum::extract::ConnectInfo(std::net::SocketAddr::from(([127, 0, 0, 1], 40_000))));
+                let answer = sim
+                    .run_as(group, "http-request", async move {
+                        let response = match tower::ServiceExt::oneshot(router, req).await {
+                            Ok(response) => response,
+                            Err(never) => match never {},
+                        };
+                        let (parts, body) = response.into_parts();
+                        let bytes = http_body_util::BodyExt::collect(body).await.map(|c| c.to_bytes().to_vec()).unwrap_or_default();
+                        (parts.status, parts.headers, bytes)
+                    })
+                    .await;
+                match answer {
+                    Some((status, headers, bytes)) => {
+                        let mut response = http::Response::builder().status(status);
+                        for (name, value) in headers.iter() {
+                            response = response.header(name, value);
+                        }
+                        let response = response.body(bytes).map_err(|e| e.to_string())?;
+                        Ok(reqwest::Response::from(response))
+                    }
+                    None => Err("the request died with the server".to_string()),
+                }
+            })
+        })));
+    }
+
     /// Stops the server process; only what reached the files survives.
     pub async fn stop(self: &Rc<Self>, kind: StopKind) -> Result<(), IggyError> {
         let Some(shared) = self.system.borrow_mut().take() else {
@@ -260,6 +325,7 @@ impl World {
         };
         let group = self.group();
         self.sim.set_listener(None);
+        self.sim.set_http_handler(None);
         let mut result = Ok(());
         if kind != StopKind::Kill {
             let system = shared.clone();
